@@ -90,7 +90,9 @@ def _cases(draw, tier):
         return {'kind': kind, 'isa': cfg, 'items': b.items, 'lo': b.lo, 'feats': sorted(feats),
                 'idirs': draw(st.sampled_from([['inc_a', 'inc_b'], ['inc_b', 'inc_a', 'inc_b']]))}
     cfg = draw(G.layout_isa(zones=False))
-    why = draw(st.sampled_from(['twice-direct', 'twice-nested', 'diamond', 'missing', 'ambiguous', 'self']))
+    why = draw(st.sampled_from(['twice-direct', 'twice-nested', 'diamond', 'missing', 'ambiguous', 'self',
+                                 'includer-file-label-used-in-included', 'included-file-label-used-in-includer',
+                                 'includer-file-label-used-in-nested']))
     byte = {'t': 'data', 'd': '.byte', 'vals': [['num', 7, 'dec']]}
     common = {'t': 'include', 'file': 'common.asm', 'items': [dict(byte)], 'path': 'inc_a/common.asm'}
     if why == 'twice-direct':
@@ -103,6 +105,23 @@ def _cases(draw, tier):
                  {'t': 'include', 'file': 'right.asm', 'path': 'inc_b/right.asm', 'items': [dict(byte), copy.deepcopy(common)]}]
     elif why == 'self':
         items = [dict(byte), {'t': 'include', 'file': 'main.asm', 'items': [], 'path': 'main.asm'}]
+    elif why == 'includer-file-label-used-in-included':
+        probe = {'t': 'data', 'd': '.2byte', 'vals': [['lab', '_mine']]}
+        items = [{'t': 'label', 'name': '_mine'}, dict(byte),
+                 {'t': 'include', 'file': 'common.asm', 'path': 'inc_a/common.asm', 'items': [dict(byte), probe]}]
+        if draw(st.booleans()):
+            items.reverse()
+            items = [items[0], {'t': 'label', 'name': '_mine'}, dict(byte)]
+    elif why == 'included-file-label-used-in-includer':
+        probe = {'t': 'data', 'd': '.2byte', 'vals': [['lab', '_theirs']]}
+        inc = {'t': 'include', 'file': 'common.asm', 'path': 'inc_a/common.asm',
+               'items': [{'t': 'label', 'name': '_theirs'}, dict(byte)]}
+        items = [inc, probe] if draw(st.booleans()) else [probe, inc]
+    elif why == 'includer-file-label-used-in-nested':
+        probe = {'t': 'data', 'd': '.2byte', 'vals': [['lab', '_mine']]}
+        items = [{'t': 'label', 'name': '_mine'}, dict(byte),
+                 {'t': 'include', 'file': 'outer.asm', 'path': 'inc_b/outer.asm', 'items': [
+                     dict(byte), {'t': 'include', 'file': 'common.asm', 'path': 'inc_a/common.asm', 'items': [probe]}]}]
     else:
         items = [dict(byte), copy.deepcopy(common), dict(byte)]
     # surround with a few ordinary lines
